@@ -30,17 +30,31 @@ SETTINGS_PAYLOADS = [b'', bytes.fromhex('3301'), bytes.fromhex('0801'), bytes.fr
 BAD_SETTINGS = [bytes.fromhex('0200'), bytes.fromhex('33013301'), bytes.fromhex('33'), bytes.fromhex('0040')]
 
 
+# identifiers beyond 32 bits (8-byte varint VALUES): a conversion that truncates them must show
+BIG_REQ = [2 ** 32, 2 ** 32 + 4, 2 ** 32 + 8, 2 ** 32 + 12, 2 ** 31, 2 ** 32 - 4, 2 ** 62 - 4, 2 ** 62 - 8]
+BIG_ANY = BIG_REQ + [2 ** 32 + 1, 2 ** 62 - 1, 2 ** 33 + 70]
+
+
+def goaway_run(rng, n):
+    """n GOAWAY ids, non-increasing; sometimes around 2^32 / 2^62 where only the high bits differ or agree"""
+    if rng.random() < 0.6:
+        return sorted([rng.choice([0, 4, 8, 12, 400]) for _ in range(n)], reverse=True)
+    base = rng.choice([2 ** 32, 2 ** 33, 2 ** 62 - 16])
+    pool = [base + k for k in (0, 4, 8, 12)] + [8, 12, 2 ** 32 - 4]
+    return sorted([rng.choice(pool) for _ in range(n)], reverse=True)
+
+
 def ctl_frame(rng, kind):
     if kind == 'S':
         return frame(rng, 4, rng.choice(SETTINGS_PAYLOADS))
     if kind == 'Sbad':
         return frame(rng, 4, rng.choice(BAD_SETTINGS))
     if kind == 'G':
-        return frame(rng, 7, anyform(rng, rng.choice([0, 0, 4, 8, 12, 1, 2, 3, 400, 2 ** 30])))
+        return frame(rng, 7, anyform(rng, rng.choice([0, 0, 4, 8, 12, 1, 2, 3, 400, 2 ** 30] + BIG_ANY)))
     if kind == 'C':
-        return frame(rng, 3, anyform(rng, rng.choice([0, 1, 5, 70])))
+        return frame(rng, 3, anyform(rng, rng.choice([0, 1, 5, 70, 70, 5] + BIG_ANY)))
     if kind == 'M':
-        return frame(rng, 13, anyform(rng, rng.choice([0, 1, 5, 70])))
+        return frame(rng, 13, anyform(rng, rng.choice([0, 1, 5, 70, 70, 5] + BIG_ANY)))
     if kind == 'D':
         n = rng.choice([0, 1, 3])
         return anyform(rng, 0) + anyform(rng, n) + bytes(rng.getrandbits(8) for _ in range(rng.choice([0, n])))
@@ -348,7 +362,7 @@ class P(Property):
             sid = peer_ids(role)[0]
             gid = own_ids(role)[3]
             frames = [frame(rng, 4, rng.choice(SETTINGS_PAYLOADS))]
-            goaways = sorted([rng.choice([0, 4, 8, 12, 400]) for _ in range(rng.randint(1, 3))], reverse=True)
+            goaways = goaway_run(rng, rng.randint(1, 3))
             if rng.random() < 0.3:
                 goaways.append(goaways[-1] + 4)   # an increase: H3_ID_ERROR only if the earlier ones were processed
             for x in goaways:
@@ -424,7 +438,7 @@ class P(Property):
             nfr = rng.randint(20, 100)
             kinds = ['U', 'U', 'M', 'C'] if role == 's' else ['U']
             data = anyform(rng, 0) + frame(rng, 4, rng.choice(SETTINGS_PAYLOADS))
-            ids_g = sorted([rng.choice([0, 4, 8, 400]) for _i in range(3)], reverse=True)
+            ids_g = goaway_run(rng, 3)
             for i in range(nfr):
                 if i in (nfr // 3, 2 * nfr // 3) and rng.random() < 0.6:
                     data += frame(rng, 7, enc(ids_g.pop(0)))
@@ -529,12 +543,12 @@ class P(Property):
             ids = peer_ids(role)
             rng.shuffle(ids)
             sid = ids[0]
-            g0 = rng.choice([0, 4, 400])
+            g0 = rng.choice([0, 4, 400, 2 ** 32 + 8, 2 ** 62 - 4, 2 ** 32])
             evs = ['P', 'U%d' % sid, '%d:c:%s' % (sid, (b'\x00' + frame(rng, 4, rng.choice(SETTINGS_PAYLOADS)) + frame(rng, 7, enc(g0))).hex()), 'P']
             later = []
             for _i in range(rng.randint(1, 4)):
                 k = rng.choice(['G', 'G', 'U', 'M', 'C', 'D', 'S', 'H2', 'Gbad'])
-                f = frame(rng, 7, enc(rng.choice([0, g0, g0 + 4]))) if k == 'G' else ctl_frame(rng, k)
+                f = frame(rng, 7, enc(rng.choice([0, g0, g0 + 4, max(g0, 4) - 4, g0 % 2 ** 32]))) if k == 'G' else ctl_frame(rng, k)
                 later.append('%d:c:%s' % (sid, f.hex()))
             later += rng.choice([[], [], ['%d:F' % sid], ['%d:R3' % sid]])
             extra = []
@@ -545,7 +559,43 @@ class P(Property):
             out.append(line(role, rng.choice([0, 1]), rng.choice([3, 4]), 'u', evs))
         return out
 
+    def gen_bigids(self, tier, rng, n):
+        """GOAWAY / CANCEL_PUSH / MAX_PUSH_ID identifiers beyond 2^32 in legal non-increasing runs (no error wanted) and
+        with one increase (H3_ID_ERROR wanted), each followed by a poll; both roles"""
+        out = []
+        for _ in range(n):
+            role = rng.choice('sc')
+            sid = peer_ids(role)[0]
+            run = goaway_run(rng, rng.randint(2, 4))
+            while run[0] < 2 ** 31:
+                run = goaway_run(rng, rng.randint(2, 4))
+            if rng.random() < 0.3:
+                i = rng.randrange(1, len(run))
+                run[i] = run[i - 1] + rng.choice([4, 2 ** 32])      # an increase
+            evs = ['P', 'U%d' % sid, '%d:c:00' % sid, '%d:c:%s' % (sid, frame(rng, 4, rng.choice(SETTINGS_PAYLOADS)).hex())]
+            for x in run:
+                if role == 's' and rng.random() < 0.4:
+                    evs.append('%d:c:%s' % (sid, ctl_frame(rng, rng.choice('CM')).hex()))
+                evs.append('%d:c:%s' % (sid, frame(rng, 7, enc(x)).hex()))
+                if rng.random() < 0.8:
+                    evs.append('P')
+            evs += ['P', 'P']
+            out.append(line(role, rng.choice([0, 1]), rng.choice([3, 4]), 'u', evs))
+        return out
+
     def cases(self, tier, rng):
+        out = self.cases0(tier, rng)
+        # a quarter of all cases: every delivered chunk reaches h3 as a non-contiguous Buf (SimQuic SEG<n>)
+        r2 = __import__('random').Random(rng.getrandbits(32))
+        res = []
+        for c in out:
+            if r2.random() < 0.25:
+                pre, evs = c.split('ev=', 1)
+                c = '%sev=SEG%d,%s' % (pre, r2.choice([1, 2, 3, 7]), evs)
+            res.append(c)
+        return res
+
+    def cases0(self, tier, rng):
         out = self.gen_hdr(tier, rng)
         q = tier == 'quick'
         out += self.gen_grease(tier, rng, 300 if q else 20000)
@@ -554,6 +604,7 @@ class P(Property):
         out += self.gen_finish(tier, rng, 300 if q else 20000)
         out += self.gen_blocked(tier, rng, 400 if q else 30000)
         out += self.gen_after_none(tier, rng, 300 if q else 20000)
+        out += self.gen_bigids(tier, rng, 200 if q else 10000)
         out += self.gen_ctl(tier, rng, 2500 if q else 150000)
         out += self.gen_multi(tier, rng, 1500 if q else 100000)
         return out
@@ -616,17 +667,15 @@ class P(Property):
                 return False
             if kv.get('close', '-') != '-':
                 return False
-        # unknown streams are refused with H3_STREAM_CREATION_ERROR, nothing else is
+        # the statement only says that an unknown stream type is never a connection error (RFC 9114 6.2 lets the
+        # receiver abort reading with any code or just discard): the oracle only refuses STOP_SENDING on a stream that
+        # is NOT of unknown type; which streams are refused, when, and with which code is compared exactly between
+        # implementation and model only (C04_poll_complete, C04_stream_types speak about the model)
         want = set(lst(sp['stops']))
-        got = lst(kv.get('stops', '-'))
-        got_ids = set()
-        for g in got:
+        for g in lst(kv.get('stops', '-')):
             i, c = g.split(':')
-            if int(c) != CODE_STREAM_CREATION or i not in want or i in got_ids:
+            if i not in want:
                 return False
-            got_ids.add(i)
-        if err is None and settled and got_ids != want:
-            return False
         # what acting on the frames leaves behind (observable on the implementation): settings in force, closing state
         complete = sp['any'] == '0' and ((err is None and settled) or (err is not None and sp['exact'] == '1' and err in hard))
         if complete and kv.get('closing', '-') != '-':
